@@ -2,18 +2,19 @@ use pvh::ast::*;
 use pvh::run::{self, Limits, Mode};
 fn main() {
     pvh::guard::install();
-    let p = Program {
-        nq: 2,
-        body: vec![
-            Goal::Fresh(vec![2], vec![Goal::Call(Rel::Nat, vec![Term::Var(2)]), Goal::Eq(Term::Var(0), Term::cons(Term::Int(7), Term::Var(2)))]),
-            Goal::Conde(vec![vec![Goal::Fail], vec![Goal::Eq(Term::Var(0), Term::list(vec![Term::Var(1)]))]]),
-        ],
-    };
-    let budget: u64 = std::env::args().nth(1).and_then(|s| s.parse().ok()).unwrap_or(1000);
-    let t = std::time::Instant::now();
-    let out = run::run(&p, Mode::Bfs, Limits::first(25, budget));
-    let t2 = std::time::Instant::now();
-    let h = pvh::model::interp::holds(&p, &[Term::ints(&[7]), Term::Int(7)], 4000);
-    println!("holds {:?} in {:?}", h, t2.elapsed());
-    println!("{} answers {:?} end {:?} in {:?}", p.show(), run::show_answers(&out.answers), out.end, t.elapsed());
+    let v = |i: u32| Term::Var(i);
+    let which: usize = std::env::args().nth(1).and_then(|s| s.parse().ok()).unwrap_or(0);
+    let a = vec![Goal::Eq(v(2), Term::Int(1)), Goal::Eq(v(3), Term::Int(1))];
+    let b = vec![Goal::Eq(v(0), Term::Int(2)), Goal::Eq(v(1), Term::Int(2))];
+    let mut body = vec![
+        Goal::Fd(FdGoal::Distinct(Term::list(vec![v(0), v(1)]))),
+        Goal::Conde(vec![a, b]),
+        Goal::Fd(FdGoal::InFdRange(Term::list(vec![v(0), v(1)]), 1, 3)),
+    ];
+    if which == 1 { body.push(Goal::ReadUser(v(4))); }
+    if which == 2 { body = vec![Goal::Fresh(vec![5,6,7,8], { let mut b2 = vec![Goal::Eq(v(0), Term::list(vec![v(5),v(6),v(7),v(8)]))]; b2.extend(body.iter().map(|g| pvh::model::interp::rename_goal(g, &[(0,5),(1,6),(2,7),(3,8)]))); b2 })]; }
+    let p = Program { nq: 5, body };
+    println!("{}", p.show());
+    let out = run::run(&p, Mode::Bfs, Limits { max_answers: 100000, budget: 1 << 40 });
+    println!("{} answers {} end {:?}", out.answers.len(), run::show_answers(&out.answers), out.end);
 }
